@@ -88,18 +88,39 @@ type Outcome struct {
 
 var defaultChunk = -1
 
+// ChunkOf derives the value-chunking threshold of a case from its key ("case-N"): the threshold
+// is a process-global of the tool, so all cases of one worker process share it (see
+// harness.ShardOptions.Group).  0 = production default (16 MiB, no chunking at these sizes).
+func ChunkOf(key string) int {
+	n := 0
+	for _, c := range key {
+		if c >= '0' && c <= '9' {
+			n = n*10 + int(c-'0')
+		}
+	}
+	switch n % 8 {
+	case 1:
+		return 1024
+	case 3:
+		return 2048
+	case 5:
+		return 4096
+	}
+	return 0
+}
+
 // Run replays the scenario's snapshot through a fresh RedisOutput into a fresh double.
 // hooks (optional) can install fault injection on the double before the replay starts and
 // receives the cancel function of the replay context.
 func Run(sc *Scenario, hooks func(srv *fakeredis.Server, cancel context.CancelFunc, f *drive.Feeder)) (*Outcome, string) {
-	old := rdb.VerifSetMaxBinEntryBuffer(16 * 1024 * 1024)
 	if defaultChunk < 0 {
-		defaultChunk = old
-	}
-	if sc.Chunk > 0 {
-		rdb.VerifSetMaxBinEntryBuffer(sc.Chunk)
-	} else {
-		rdb.VerifSetMaxBinEntryBuffer(defaultChunk)
+		// set once per process, before any parser goroutine exists
+		defaultChunk = sc.Chunk
+		if sc.Chunk > 0 {
+			rdb.VerifSetMaxBinEntryBuffer(sc.Chunk)
+		}
+	} else if defaultChunk != sc.Chunk {
+		return nil, "chunk threshold differs from the one this process was started with"
 	}
 	if sc.PipeSize > 0 {
 		config.RdbPipeSize = sc.PipeSize
